@@ -9,7 +9,7 @@ def run(ctx):
     cov, viol, samples = shm.run_sched(ctx, b, "C03", 60000 if q else 3000000)
     ctx.log("sched: %d scenarios, %d distinct, %d idle-window calls" % (cov["scenarios"], cov["distinct_schedules"], cov["idle_calls"]))
     parts = shm.run_single(ctx, b, ["c03long", "--seed", str(ctx.seed), "--rounds", "4" if q else "60"], NPROC, 1800)
-    lng = {"evaluations": 0, "idle_calls": 0, "wrap_crossings": 0, "exception_cases": 0, "distinct": 0}
+    lng = {"evaluations": 0, "idle_calls": 0, "wrap_crossings": 0, "exception_cases": 0, "distinct": 0, "sparse_change_checks": 0}
     lsamples = []
     lost = 0
     for p in parts:
@@ -38,7 +38,7 @@ def run(ctx):
         "distinct_nontrivial": cov["distinct_schedules"] + lng["distinct"],
         "rule": "sched: seeded scenarios under the token scheduler, distinct = distinct interleaving traces with an overlapped call or an observed publication change; "
                 "c03long: sequential histories (start generation x number of publications slept through in {1,2,3,100,32765..32769,65533..65535,98301}), distinct = distinct (start generation, sleep) pairs; "
-                "oracles: per-reader indices never decrease; a call whose whole window had no update in flight returns the latest completed publication (exempt: slept through a positive multiple of 32767)",
+                "sparse histories: consecutive publications differing in one field only, attached and fresh readers compared by full equality; oracles: per-reader indices never decrease; a call whose whole window had no update in flight returns the latest completed publication (exempt: slept through a positive multiple of 32767)",
         "samples": samples[:2] + lsamples[:2] + [{"miri": s} for s in msamples[:1]],
         "sched": cov,
         "long_histories": lng,
